@@ -701,7 +701,10 @@ func (c *Compiler) compileAssign(
 	_, isFunc := rhs[0].(*parser.FuncLit)
 	symbol, depth, exists := c.symbolTable.Resolve(ident, false)
 	if op == token.Define {
-		if depth == 0 && exists {
+		if depth == 0 && exists && symbol.Scope != ScopeBuiltin {
+			// (a builtin function is not a declaration of the block its
+			// symbol happens to live in: ':=' may shadow it at the top level
+			// as it may inside functions and modules)
 			return c.errorf(node, "'%s' redeclared in this block", ident)
 		}
 		if isFunc {
